@@ -24,6 +24,10 @@ CLAIMED = {
         technique="runtime monitoring with fault injection: crash-point enumeration over the victim's durable writes of recorded scenarios (virtual crash at the n-th write, rebuild from the model disk), with the commitment/revocation/ordering monitors kept alive across the restart",
         text="Every selected crash point of every base scenario is an independent deterministic re-execution up to the victim's n-th durable write, followed by a rebuild from the most recently persisted (or an older) ChannelManager and the durable monitors with in-flight writes independently lost or kept, optionally a second crash during recovery, then reconnection and quiescence. Judged: reading back succeeds; a manager serialized at the stop is never declared outdated; resumed channels never error or close and all their later commitments match the reference model fed with the pre-crash history; the revocation and ordering automata (C05/C09 rules) keep their pre-crash state. Quick: 64 scenarios x <=12 points + 800 random-restart runs; thorough: 480 scenarios fully enumerated (<=400 points each) + 24k runs.",
         note=WORLD_NOTE + " On-chain resolution of channels closed by a stale restart is judged by the C07 machinery, not here."),
+    "C12": dict(category="exploration", design_ref="DESIGN.md §6 C12",
+        technique="runtime monitoring: serialization oracles riding on world runs (round trip of every ChannelMonitorUpdate in the Watch tap; every monitor and manager at quiescent points; shadow monitors that went through a round trip fed with the same later updates and blocks and compared under the library's own equality; byte-fault injection into sampled encodings) plus reference-twin histories for the scorer",
+        text="In ~800 (quick) / 24k (thorough) scenario runs with force closes, restarts, async/deferred persistence and multi-path payments: ~10^5 monitor updates read back equal (Z1); ~10^4 monitors and ~5*10^3 managers read back, the manager listing the same channels, balances, limits, pending HTLCs and payments, stable under a second round trip (Z1, Z4); shadow monitors re-serialized at every quiescent point stay equal to the real ones after ~5*10^4 further updates/blocks (Z3); strict prefixes never read, unknown odd records are ignored and even ones rejected in monitor and manager encodings (Z6). Scorer: see stage c12_scorer. Network graph round trips are judged in C17 (G4).",
+        note=WORLD_NOTE + " Hooks: ChannelMonitor::verif_eq / verif_eq_ignoring_in_memory_only_state. Known finding F14 (in-memory-only failed-back ids take part in the library's monitor equality). Behaviour of a reloaded manager on later messages is C10's subject; the output sweeper is not covered."),
     "C13": dict(category="exploration", design_ref="DESIGN.md §6 C13",
         technique="runtime monitoring: generated message values and byte-level mutants pushed through the real codecs under panic capture, with round-trip / prefix-exactness / TLV-rule oracles",
         text="For every wire message type, generated values (all optional TLVs toggled, boundary-length vectors, all address and feature encodings) are encoded, decoded and compared; the type dispatcher is checked for identity; every strict prefix must fail or re-encode to exactly itself; every single-byte mutant must fail or be stable under re-encoding; unknown odd TLVs must be ignored, unknown even / non-minimal / over-long ones rejected; arbitrary strings never panic. Quick ~2*10^4 values / ~10^7 mutants; thorough 50x.",
@@ -56,6 +60,10 @@ CLAIMED = {
         technique="runtime monitoring: recording Listen implementations with their own chain stacks checked online against generated proof-of-work block trees, over a fault-injecting BlockSource",
         text="~2.4*10^5 (quick) / ~1.2*10^7 (thorough) cases: after every poll_best_tip / synchronize_listeners the listeners' notifications must be one disconnect to their fork point followed by connects in ascending height on top of their own tip (L1, L2); fault-free polls move listeners exactly when the source's tip has strictly more work and report it truthfully (L3); with injected errors, bad-PoW / foreign / altered headers and blocks nothing refusable reaches a listener, no block is skipped or repeated, and the next fault-free poll converges (L4); start-up sync brings listeners at different stale/forked blocks to one tip (L5); header-cache use (L6).",
         note="Known finding F13 (height/chainwork claims of a source not validated on header-cache hits) is exercised by a separate stage (lies=1) and collapses into one signature. Not judged: several block sources, real async concurrency, chainwork near 2^256. Observation: a block with its last transaction duplicated passes check_merkle_root (counter only)."),
+    "C15": dict(category="exploration", design_ref="DESIGN.md §6 C15",
+        technique="runtime monitoring: real PeerManagers over a scheduler-controlled byte pipe with recording handlers, checked online against an exactly-once in-order prefix oracle, and against an independent BOLT-8 reference implementation (own ChaCha20-Poly1305/HKDF/ECDH, self-tested on the spec vectors) that authenticates every frame and injects faults at exact offsets",
+        text="~3.2*10^4 (quick) / 1.6*10^6 (thorough) sessions: delivered messages are at every moment a byte-identical in-order exactly-once prefix of what was released, and everything at quiescence of a fault-free case (T1); with a bit flip, truncation, insertion, deletion, replay, duplicate or swap at any offset of the acts or frames nothing at or after the damaged frame is delivered, everything before it is, and the drop happens in the read that completes the damaged unit (T2); no handler callback before both Inits, nothing but Init sent while the peer withholds its Init (T3); garbage and authenticated hostile frames never panic (T4); handshake and every emitted frame verify under the reference's keys across >= 2 key rotations per direction (K1, K2).",
+        note="Trusted: the reference BOLT-8 peer (checked against the BOLT-8 appendix vectors at start-up; failure = inconclusive). Not judged: PeerChannelEncryptor in isolation (not public), lightning-net-tokio, multi-threaded drivers; 'no panic' is shown for the generated frame families, codecs are C13's."),
     "C17": dict(category="exploration", design_ref="DESIGN.md §6 C17",
         technique="runtime monitoring: reference-model monitor (latest-timestamp-wins map with signature/chain/capacity/removal-tracking rules) run in lock step with the real NetworkGraph over generated adversarial gossip sequences; order-permutation and serialization round-trip oracles",
         text="Generated gossip with real secp256k1 keys is delivered to NetworkGraph through the signed and unsigned public APIs; a ~100-line reference predicts accept/reject of every message and the final graph for the exact sequence (G1), admissible permutations with duplication of the valid subset must converge to one graph (G2), permanent-failure and stale-pruning operations are mirrored (G3), and every final graph must survive write/read (G4). Quick ~6.4k universes / ~2*10^6 predictions / 5*10^4 orders; thorough 50x.",
